@@ -439,6 +439,36 @@ def c01_cases(tier, seed):
                 keys.append(rng.choice(["\ufb01", "\u0130", "a", " "]))
         keys.append("Enter")
         cases.append(Case(keys, mode="emacs", initial=(t[:k], t[k:]), timeout=rng.choice(["none", 0]), prompt="> ", meta={}))
+    # per-character commands on text made of clusters of several code points (combining marks, flags, emoji with a
+    # modifier or a joiner): one keystroke = one cluster, whatever its number of code points or bytes
+    clusters = ["e\u0301", "a\u0308\u0301", "\U0001F1EB\U0001F1F7", "\U0001F44D\U0001F3FD", "\U0001F468\u200D\U0001F469",
+                "x", "\u65e5", "\u00e9", " ", "o\u0302"]
+    for _ in range(n // 8):
+        t = "".join(rng.choice(clusters) for _ in range(rng.randint(3, 9)))
+        k = rng.randint(0, len(t))
+        mode = rng.choice(["vi", "vi", "emacs"])
+        keys = []
+        if mode == "vi":
+            keys.append("Esc")
+            for _ in range(rng.randint(3, 9)):
+                cnt = [rng.choice("234")] if rng.random() < 0.35 else []
+                r = rng.random()
+                if r < 0.3:
+                    keys += cnt + [rng.choice(["h", "l", "0", "$", "w", "b", "e"])]
+                elif r < 0.6:
+                    keys += cnt + ["r", rng.choice(["z", "\u00e9", "\u65e5"])]
+                elif r < 0.8:
+                    keys += cnt + [rng.choice(["x", "X", "~", ".", "u", "p", "P"])]
+                else:
+                    keys += cnt + [rng.choice(["s", "i", "a"]), rng.choice(["q", "\u0301"]), "Esc"]
+        else:
+            for _ in range(rng.randint(3, 9)):
+                if rng.random() < 0.3:
+                    keys += rng.choice([["M-2"], ["M-3"], ["M--"]])
+                keys.append(rng.choice(["C-b", "C-f", "C-d", "Backspace", "C-t", "C-a", "C-e", "M-t", "M-c", "C-_", "q", "\u0301", "C-y"]))
+        keys.append("Enter")
+        cases.append(Case(keys, mode=mode, initial=(t[:k], t[k:]), timeout=0 if mode == "vi" else rng.choice(["none", 0]),
+                          prompt="> ", meta={}))
     for _ in range(n):
         mode = rng.choice(["emacs", "emacs", "vi"])
         hist = [rng.choice(HIST_POOL) for _ in range(rng.choice([0, 0, 1, 2, 3]))]
@@ -774,6 +804,8 @@ def c06_cases(tier, seed):
                 elif r < 0.5:
                     keys += rng.choice([["C-y"], ["C-y", "M-y"], ["C-y", "M-y", "M-y"], ["M-y"], ["M-2", "C-y"], ["M-3", "C-y", "M-y"]])
                 elif r < 0.6:
+                    if rng.random() < 0.4:
+                        keys.append(rng.choice(["M-2", "M-3", "M--"]))      # a counted character delete is still no kill
                     keys.append(rng.choice(["C-d", "Backspace", "C-h", "Delete"]))
                 elif r < 0.68:
                     # commands the main loop handles itself (quoted insert, a search that is aborted or finds nothing)
@@ -801,6 +833,8 @@ def c06_cases(tier, seed):
                         if op != "c" and rng.random() < 0.3:
                             keys += [rng.choice(["x", "X", "x"]), rng.choice(["p", "P"])]
                     elif r < 0.6:
+                        if rng.random() < 0.3:
+                            keys.append(rng.choice("23"))
                         keys.append(rng.choice(["p", "P", "p", "P", "x", "X", "D"]))
                     elif r < 0.8:
                         keys.append(rng.choice(["h", "l", "w", "b", "0", "$"]))
@@ -829,6 +863,17 @@ def c06_cases(tier, seed):
         cases.append(Case(keys, mode=mode, reads=reads, binds=binds, initial=mk_initial(rng, 0.2),
                           history=rng.choice([[], ["one", "two"]]),
                           timeout=0 if mode == "vi" else rng.choice(["none", 0]), prompt="> "))
+    # more separate kills than the ring has slots (60), then a yank and yank-pops all the way round and beyond
+    for _ in range(max(3, n // 90)):
+        keys = []
+        nk = rng.randint(58, 67)
+        for i in range(nk):
+            keys += ["abcdefghijklmnopqrstuvwxyz"[i % 26], "0123456789"[(i // 26) % 10], "C-w"]
+        keys += ["C-y"] + ["M-y"] * rng.choice([1, 2, 5, nk - 60 if nk > 60 else 3, 59, 60, 61, 64])
+        if rng.random() < 0.5:
+            keys += ["z", "z", "C-w", "C-y", "M-y", "M-y"]
+        keys.append("Enter")
+        cases.append(Case(keys, mode="emacs", timeout=rng.choice(["none", 0]), prompt="> "))
     return cases
 
 
